@@ -1,12 +1,30 @@
 package log
 
 import (
+	"fmt"
 	"log/slog"
 	"time"
 )
 
 func ErrorAttr(err error) slog.Attr {
-	return ErrorStringAttr(err.Error())
+	return ErrorStringAttr(errorText(err))
+}
+
+// errorText is err.Error() for an error whose Error method can be called, and a description of
+// the value otherwise: a nil error, or an Error method that panics (typically a nil pointer
+// receiver) must not take down the code that is merely trying to log it.
+func errorText(err error) (text string) {
+	if err == nil {
+		return "<nil>"
+	}
+
+	defer func() {
+		if r := recover(); r != nil {
+			text = fmt.Sprintf("%T: Error() panicked: %v", err, r)
+		}
+	}()
+
+	return err.Error()
 }
 
 func ErrorAnyAttr(err any) slog.Attr {
